@@ -42,6 +42,8 @@ Chunk *search_for_colon(Chunk *pc_question, int depth)
       if (  pc2->Is(CT_SEMICOLON)
          || (  pc2->Is(CT_PAREN_CLOSE)
             && (pc_question->GetLevel() == pc2->GetLevel() + 1))
+         || (  pc2->Is(CT_SQUARE_CLOSE)                       // closes a bracket that was opened in front of the '?'
+            && square_bracket_depth == 0)
          || pc2->Is(CT_COMMA))
       {
          LOG_FMT(LCOMBINE, "%s(%d): orig line is %zu, orig col is %zu, level is %zu, Text() is '%s'\n",
